@@ -182,9 +182,8 @@ Print Assumptions rfft_inverse_recovers_input.
 
 (* H2: half-complex N-d: DiscreteFourierTransformInverse(halfcomplex) o DiscreteFourierTransform(halfcomplex)
    = id on real arrays of every shape (even and odd last transformed axis), every axes list.
-   [This is the transform as specified (irfftn WITH the target length); the current numpy
-   code path omits that length for odd sizes: finding dft-inverse-hc-odd-numpy, modelled by
-   dft_inverse_status.] *)
+   [irfftn WITH the target length: the numpy code path passes it since fix 021ba38; before, odd
+   sizes raised.  A regression breaks the dft correspondence (odd sizes are generated).] *)
 Theorem dft_halfcomplex_inverse_recovers_input : forall (shape axes : list nat) (x : list (@cx R)),
   axes <> [] -> (forall ax, In ax axes -> (ax < length shape)%nat) ->
   (1 <= nth (last_axis axes) shape 0%nat)%nat -> length x = prodn shape -> Forall is_real x ->
@@ -208,30 +207,20 @@ Proof. exact ft_roundtrip_real_true. Qed.
 Print Assumptions ft_real_inverse_recovers_input_partial.
 
 (* The FULL statement "for every half-complex option and shift choice the inverse recovers the
-   input" is FALSE of the faithful model: the code accepts half-complex with an unshifted
-   non-last axis at construction (only the last axis is checked) and then fails -- findings
-   ft-halfcomplex-unshifted-axis / ft-real-unshifted-pyfftw-inverse.  What the model (and the
-   code, by the correspondence) does on such a configuration, with the variant switches set to
-   "defect present" (first arguments; the harness measures them on every run): *)
+   input" is still FALSE of the faithful model: the code accepts half-complex with an unshifted
+   non-last axis at construction (only the last axis is checked) and then fails -- open finding
+   ft-halfcomplex-unshifted-axis.  What the model (and the code, by the correspondence) does on
+   such a configuration, with the variant switch set to "defect present" (first argument of
+   ft_init_status; the harness measures it on every run): *)
 Theorem ft_halfcomplex_unshifted_refuted :
   exists (shifts : list bool),
     @ft_init_status R _ false [mk_axis 0 3 4; mk_axis 0 4 5] [0; 1]%nat shifts true false = SOk
-    /\ ft_inverse_status true false true true shifts = STypeErr      (* numpy: inverse raises *)
-    /\ ft_forward_status true true true shifts = SOtherErr.     (* pyfftw: forward raises *)
+    /\ ft_inverse_status true true shifts = STypeErr          (* inverse raises on both back-ends *)
+    /\ ft_forward_status true true true shifts = SOtherErr.   (* pyfftw: forward raises *)
 Proof. exact ft_hc_unshifted_status. Qed.
-Theorem ft_real_unshifted_pyfftw_refuted :
-  exists (shifts : list bool),
-    ft_inverse_status true true true false shifts = STypeErr /\ ft_inverse_status true false true false shifts = SOk.
-Proof. exact ft_real_unshifted_status. Qed.
-(* DFT: the inverse onto a real space without half-complex is rejected by pyfftw, and the numpy
-   half-complex inverse rejects odd lengths (findings dft-inverse-real-nonhc-pyfftw,
-   dft-inverse-hc-odd-numpy) *)
-Theorem dft_inverse_current_code_refuted :
-  dft_inverse_status true true true true false true [4]%nat [0]%nat = SValueErr
-  /\ dft_inverse_status true true true true false false [4]%nat [0]%nat = SValueErr
-  /\ dft_inverse_status true true false true true false [5]%nat [0]%nat = SValueErr
-  /\ dft_inverse_status true true false true true false [4]%nat [0]%nat = SOk.
-Proof. exact dft_inverse_status_examples. Qed.
+(* The earlier refutations about the inverse DFT onto real spaces (pyfftw), odd half-complex
+   lengths (numpy) and the real unshifted pyfftw inverse FT are gone: those defects were repaired
+   in /repo and D3 / H2 / F2 are the live statements for them. *)
 
 (* ------------------------------------------------------------------ *)
 (* F3: PHASE CORRECTNESS (what a round trip cannot see: a consistently wrong phase cancels
